@@ -197,6 +197,9 @@ def run_case(ctx, snap, argv, fmt="tabs", cwd=None, relation="runMain (model) = 
         ctx.hist("model_outcome", mres["kind"] if mres["kind"] != "exit" else "exit%d" % mres["status"])
         if mres["kind"] == "unsupported":
             ctx.hist("unsupported_why", mres["why"][:40])
+        if mres["kind"] == "error":
+            ctx.hist("model_error_raw", mres["raw"][:60])
+            ctx.disagree(relation + " [model driver gave no outcome]", {"argv": argv}, mres["raw"][:200], "status %s" % impl["status"])
         d = compare(mres, impl, fmt, ncols)
         if d:
             case = {"argv": argv, "tree": [n["rel"] + ("/" if n["kind"] == "d" else "") for n in snap.nodes][:60],
